@@ -410,3 +410,8 @@ Definition geo_ordering_ok (t : tool) : bool :=
   | None => true
   | Some v => forallb (fun b => forallb (tok_eqb v) (b_geo b)) (t_blocks t)
   end.
+
+(* the aliases that select the variant of a block (e.g. no adaptive integration) are not among the option names the help
+   text documents: every documented alias has the documented (default) meaning *)
+Definition variant_doc_ok (t : tool) : bool :=
+  forallb (fun b => forallb (fun a => negb (existsb (tok_eqb a) (t_documented t))) (b_variant b)) (t_blocks t).
